@@ -3,14 +3,23 @@
    canonical SSZ encodings, and accepts every canonical encoding below 2^32 bytes.
 
    Contents
-     0. spec vocabulary used in the statements: [sizes_ok]
-     1. no panic                                    ([view_deser_no_panic], [C03_no_panic])
-     2. reader algebra: [adv], [rinv]
-     3. the slice decoder [sdec]
-     4. simulation  view_deser <-> sdec             ([sim_fwd], [sim_bwd], [view_deserialize_sdec])
-     5. bytes / bits / ser_parts structure
-     6. canonicity and completeness of [sdec]       ([sdec_sound], [sdec_complete])
-     7. top-level theorems and examples *)
+     0. spec vocabulary used in the statements: [sizes_ok], [leaf_ok]
+     1. no panic                         [view_deser_no_panic], [view_deserialize_no_panic]
+     2. reader algebra                   [chain_ok], [rinv], [adv] (exactly k bytes consumed
+                                         through a chain of limit counters), [dr_read_fwd/bwd],
+                                         sub-scopes
+     3. the slice decoder                [sdec : ty -> list byte -> option node] and its series
+                                         helpers (plain firstn/skipn, no reader state)
+     4. simulation                       [dec_fwd]/[dec_bwd]: an accepting decoder consumes
+                                         exactly its scope and agrees with [sdec] on the slice;
+                                         [sim_all], [view_deserialize_sdec]
+     5. bytes and the layout of [ser_parts] ([pfield], [ser_parts_layout], [layout])
+     6. canonicity / completeness of [sdec]   [sdec_sound], [sdec_complete]
+     7. top-level theorems               [deser_no_panic], [deser_canonical], [deser_complete],
+                                         [deser_rejects], [deser_local], [deser_local_conv];
+                                         examples and counterexamples for the side conditions
+
+   All ten type constructors are covered (nothing is restricted to a fragment). *)
 From Coq Require Import PeanoNat ZArith ZifyN ZifyNat ZifyBool.
 From Ztyp Require Import Base Bitlen Tree Types Spec Reader View Repr.
 From Ztyp Require Import BitlenProofs SizeProofs MerkleProofs ReprProofs.
@@ -43,6 +52,18 @@ Fixpoint sizes_ok (t : ty) : bool :=
   | TContainer fs => forallb sizes_ok fs
   | TUnion _ opts => forallb sizes_ok opts
   | _ => true
+  end.
+
+(* The single-chunk leaf types (uintN, bool, small byte vectors, roots) read exactly their own
+   size and do not look at the scope: the property hands them "exactly their fixed size".
+   All other types check their scope themselves. *)
+Definition leaf_ok (t : ty) (scope : N) : Prop :=
+  match t with
+  | TUint w => scope = w
+  | TBool => scope = 1
+  | TBytes n => scope = n
+  | TRoot => scope = 32
+  | _ => True
   end.
 
 (* ------------------------------------------------------------------------------------ *)
@@ -730,16 +751,6 @@ Proof. vm_compute. repeat split. Qed.
 
 (* ------------------------------------------------------------------------------------ *)
 (** * 4. Simulation: the reader-based decoder and the slice decoder *)
-
-(* single-chunk leaf types are handed exactly their size *)
-Definition leaf_ok (t : ty) (scope : N) : Prop :=
-  match t with
-  | TUint w => scope = w
-  | TBool => scope = 1
-  | TBytes n => scope = n
-  | TRoot => scope = 32
-  | _ => True
-  end.
 
 Lemma leaf_ok_fixed t : ti_fixed (info t) = true -> leaf_ok t (ti_size (info t)).
 Proof. destruct t; intros _; cbn [leaf_ok info ti_size]; auto. Qed.
@@ -3747,3 +3758,197 @@ Proof.
 Qed.
 
 End Canon.
+
+(* ------------------------------------------------------------------------------------ *)
+(** * 7. Top-level theorems *)
+
+Section Top.
+Variable zh : nat -> chunk.
+Hypothesis zh0 : zh 0 = zero_chunk.
+
+(* typed values of leaf types have the fixed size *)
+Lemma leaf_ok_ser t v : has_type v t = true -> leaf_ok t (lenN (spec_ser t v)).
+Proof.
+  destruct t; cbn [leaf_ok]; try exact (fun _ => I); destruct v; intros H; try discriminate H.
+  - cbn [spec_ser]. apply lenN_le_bytes.
+  - reflexivity.
+  - cbn [has_type] in H. apply N.eqb_eq in H. exact H.
+  - cbn [has_type] in H. apply N.eqb_eq in H. exact H.
+Qed.
+
+Theorem deser_no_panic t bs : view_deserialize zh t bs <> Panic.
+Proof. apply view_deserialize_no_panic. Qed.
+
+Theorem deser_canonical t bs n :
+  wf_ty t = true -> small_params t = true -> sizes_ok t = true -> small_fields t = true ->
+  lenN bs < 2 ^ 32 -> leaf_ok t (lenN bs) ->
+  view_deserialize zh t bs = OK n ->
+  exists v, has_type v t = true /\ bs = spec_ser t v /\ repr zh t n v.
+Proof.
+  intros Hwf Hsp Hso Hsf Hlen Hleaf H. rewrite <- two32_eq in Hlen.
+  apply (view_deserialize_sdec zh t bs n Hwf Hsp Hso Hlen Hleaf) in H.
+  exact (sdec_sound zh zh0 t Hwf Hsp Hso Hsf bs n H).
+Qed.
+
+Theorem deser_complete t v :
+  wf_ty t = true -> small_params t = true -> sizes_ok t = true -> small_fields t = true ->
+  has_type v t = true -> lenN (spec_ser t v) < 2 ^ 32 ->
+  exists n, view_deserialize zh t (spec_ser t v) = OK n /\ repr zh t n v.
+Proof.
+  intros Hwf Hsp Hso Hsf Hty Hlen. rewrite <- two32_eq in Hlen.
+  destruct (sdec_complete zh zh0 t Hwf Hsp Hso Hsf v Hty Hlen) as (n & Hs & Hr).
+  exists n. split; [|exact Hr].
+  apply (view_deserialize_sdec zh t _ n Hwf Hsp Hso Hlen (leaf_ok_ser t v Hty)). exact Hs.
+Qed.
+
+(* whatever is not an encoding of a typed value is rejected with an error *)
+Theorem deser_rejects t bs :
+  wf_ty t = true -> small_params t = true -> sizes_ok t = true -> small_fields t = true ->
+  lenN bs < 2 ^ 32 -> leaf_ok t (lenN bs) ->
+  (forall v, has_type v t = true -> bs <> spec_ser t v) ->
+  view_deserialize zh t bs = Err.
+Proof.
+  intros Hwf Hsp Hso Hsf Hlen Hleaf Hno.
+  destruct (view_deserialize zh t bs) as [n| |] eqn:E; [|reflexivity|].
+  - destruct (deser_canonical t bs n Hwf Hsp Hso Hsf Hlen Hleaf E) as (v & Hv & Hbs & _).
+    exfalso. exact (Hno v Hv Hbs).
+  - exfalso. exact (deser_no_panic t bs E).
+Qed.
+
+(* the decoded tree is unique: two accepted inputs with the same value are the same bytes,
+   and an accepted input determines its value's encoding *)
+Theorem deser_roundtrip t bs n :
+  wf_ty t = true -> small_params t = true -> sizes_ok t = true -> small_fields t = true ->
+  lenN bs < 2 ^ 32 -> leaf_ok t (lenN bs) ->
+  view_deserialize zh t bs = OK n ->
+  exists v, has_type v t = true /\ repr zh t n v /\ spec_ser t v = bs /\
+            view_deserialize zh t (spec_ser t v) = OK n.
+Proof.
+  intros Hwf Hsp Hso Hsf Hlen Hleaf H.
+  destruct (deser_canonical t bs n Hwf Hsp Hso Hsf Hlen Hleaf H) as (v & Hv & Hbs & Hr).
+  exists v. split; [exact Hv|]. split; [exact Hr|]. split; [symmetry; exact Hbs|].
+  rewrite <- Hbs. exact H.
+Qed.
+
+(* the reader discipline: decoding through any reader with a valid chain of limit counters
+   is decoding the next [scope] bytes of the stream, and consumes exactly those bytes *)
+Theorem deser_local t st d n st' :
+  wf_ty t = true -> small_params t = true -> sizes_ok t = true ->
+  rinv st d -> leaf_ok t (dr_scope d) ->
+  view_deser zh t st d = OK (n, st') ->
+  dr_scope d <= avail st (d_chain d) /\ adv st (d_chain d) (dr_scope d) st' /\
+  view_deserialize zh t (firstn (nat_of (dr_scope d)) (r_stream st)) = OK n.
+Proof.
+  intros Hwf Hsp Hso Hinv Hleaf H. destruct (sim_all zh t Hwf Hsp Hso) as [Hf _].
+  destruct (Hf st d n st' Hinv Hleaf H) as (Ha & Hadv & Hs).
+  split; [exact Ha|]. split; [exact Hadv|]. fold (slice st (dr_scope d)).
+  pose proof (slice_len st _ _ Ha) as Hl.
+  apply (view_deserialize_sdec zh t _ n Hwf Hsp Hso); [| |exact Hs].
+  - rewrite Hl. apply (scope_lt32 _ _ Hinv).
+  - rewrite Hl. exact Hleaf.
+Qed.
+
+Theorem deser_local_conv t st d n :
+  wf_ty t = true -> small_params t = true -> sizes_ok t = true ->
+  rinv st d -> leaf_ok t (dr_scope d) -> dr_scope d <= avail st (d_chain d) ->
+  view_deserialize zh t (firstn (nat_of (dr_scope d)) (r_stream st)) = OK n ->
+  exists st', view_deser zh t st d = OK (n, st').
+Proof.
+  intros Hwf Hsp Hso Hinv Hleaf Ha H. destruct (sim_all zh t Hwf Hsp Hso) as [_ Hb].
+  fold (slice st (dr_scope d)) in H. pose proof (slice_len st _ _ Ha) as Hl.
+  apply (view_deserialize_sdec zh t _ n Hwf Hsp Hso) in H.
+  - exact (Hb st d n Hinv Hleaf Ha H).
+  - rewrite Hl. apply (scope_lt32 _ _ Hinv).
+  - rewrite Hl. exact Hleaf.
+Qed.
+
+End Top.
+
+(* In the domain of the theorems the divisions of the Go code (scope / elemSize in the list
+   decoders) have a non-zero divisor, as in the model (where x / 0 = 0 would not panic). *)
+Lemma elem_size_pos e :
+  wf_ty e = true -> small_params e = true -> sizes_ok e = true ->
+  ti_fixed (info e) = true -> 1 <= ti_size (info e).
+Proof.
+  intros Hwf Hsp Hso Hfx. destruct (info_ok_of e Hsp Hso) as (_ & _ & ->).
+  apply fixed_len_pos; [exact Hwf|]. rewrite <- info_fixed_flag. exact Hfx.
+Qed.
+
+Definition ex_bytes : list byte := spec_ser test_ty test_val.
+
+(* ---- examples: the hypotheses are satisfiable ---- *)
+Example ex_canonical_hyps :
+  test_zh 0 = zero_chunk /\
+  wf_ty test_ty = true /\ small_params test_ty = true /\ sizes_ok test_ty = true /\
+  small_fields test_ty = true /\ lenN ex_bytes < 2 ^ 32 /\ leaf_ok test_ty (lenN ex_bytes) /\
+  is_ok (view_deserialize test_zh test_ty ex_bytes) = true /\ lenN ex_bytes = 36.
+Proof. vm_compute. repeat split. Qed.
+
+Example ex_complete_hyps :
+  has_type test_val test_ty = true /\ lenN (spec_ser test_ty test_val) < 2 ^ 32.
+Proof. vm_compute. repeat split. Qed.
+
+(* a non-canonical input (first offset moved beyond the fixed part) is rejected *)
+Example ex_rejects :
+  view_deserialize test_zh (TContainer [TUint 1; TList (TUint 1) 4])
+    [byte_of_N 7; byte_of_N 6; b0; b0; b0; byte_of_N 9] = Err /\
+  is_ok (view_deserialize test_zh (TContainer [TUint 1; TList (TUint 1) 4])
+    [byte_of_N 7; byte_of_N 5; b0; b0; b0; byte_of_N 9]) = true.
+Proof. vm_compute. repeat split. Qed.
+
+Example ex_local_hyps :
+  let st := mkRS (ex_bytes ++ [b0; b0]) [40; 38] in
+  let d := mkDR 0 36 [1%nat; 0%nat] in
+  rinv st d /\ leaf_ok test_ty (dr_scope d) /\ is_ok (view_deser test_zh test_ty st d) = true.
+Proof.
+  split; [|split; [exact I|vm_compute; reflexivity]].
+  split; [split|split]; cbn [d_chain d_i d_max r_lims length].
+  - repeat constructor; cbn [In]; intuition discriminate.
+  - repeat constructor.
+  - lia.
+  - rewrite two32_val. lia.
+Qed.
+
+(* ---- side conditions are necessary (in the model) ---- *)
+(* (a) scope >= 2^32: ContainerTypeDef.Deserialize computes the size of the last dynamic field
+   from uint32(scope); with a scope of 2^32 + 4 the field gets size 0 and the decoder returns
+   after 4 bytes (here shown with the scoped entry point, the stream being shorter than the
+   scope; with a real input of 2^32+4 bytes the last 2^32 bytes are silently ignored) *)
+Example cex_scope_2_32 :
+  is_ok (view_deserialize_scoped test_zh (TContainer [TList (TUint 1) (2 ^ 33)])
+           [byte_of_N 4; b0; b0; b0] (2 ^ 32 + 4)) = true.
+Proof. vm_compute. reflexivity. Qed.
+
+(* (b) leaf types do not look at the scope *)
+Example cex_leaf_scope :
+  is_ok (view_deserialize test_zh (TUint 2) [b0; b0; b0]) = true.
+Proof. vm_compute. reflexivity. Qed.
+
+(* (c) outside [sizes_ok] the element size wraps to 0; the model's x / 0 = 0 yields Err where
+   Go's scope / elemSize panics (integer divide by zero): a model discrepancy outside the
+   domain of the theorems *)
+Example cex_zero_elem_size :
+  let t := TList (TVector (TVector (TBytes 32) (2 ^ 30)) (2 ^ 30)) 0 in
+  wf_ty t = true /\ small_params t = true /\ spec_max_len t = 0 /\ sizes_ok t = false /\
+  ti_size (info (TVector (TVector (TBytes 32) (2 ^ 30)) (2 ^ 30))) = 0 /\
+  view_deserialize test_zh t [b0] = Err.
+Proof. vm_compute. repeat split. Qed.
+
+(* the premise of [deser_rejects] is satisfiable: no typed value encodes to the rejected
+   input of [ex_rejects] (by completeness) *)
+Example ex_rejects_hyp :
+  let t := TContainer [TUint 1; TList (TUint 1) 4] in
+  let bs := [byte_of_N 7; byte_of_N 6; b0; b0; b0; byte_of_N 9] in
+  wf_ty t = true /\ small_params t = true /\ sizes_ok t = true /\ small_fields t = true /\
+  lenN bs < 2 ^ 32 /\ leaf_ok t (lenN bs) /\
+  forall v, has_type v t = true -> bs <> spec_ser t v.
+Proof.
+  cbv zeta. do 5 (split; [vm_compute; reflexivity|]). split; [exact I|].
+  intros v Hty Hbs.
+  destruct (deser_complete test_zh ltac:(vm_compute; reflexivity)
+              (TContainer [TUint 1; TList (TUint 1) 4]) v
+              ltac:(vm_compute; reflexivity) ltac:(vm_compute; reflexivity)
+              ltac:(vm_compute; reflexivity) ltac:(vm_compute; reflexivity) Hty) as (n & Hn & _).
+  - rewrite <- Hbs. vm_compute. reflexivity.
+  - rewrite <- Hbs in Hn. vm_compute in Hn. discriminate Hn.
+Qed.
